@@ -21,7 +21,8 @@
 (*       rank     position of the name in Python's sorted() of all names     *)
 (*   roots   : sequence of directory ids given as --path / --test-path (in    *)
 (*             order; "" is the top directory): they name the modules;       *)
-(*   walk    : the directories walked - the roots, or with --package the     *)
+(*   rootPkg : the package each root stands for ("" except --package-path),  *)
+(*   walk / walkPkg : the directories walked - the roots, or with --package the *)
 (*             package directories; walkT[i]: tests_pattern matches the      *)
 (*             walked directory's own name                                   *)
 (* I-spec = transcription of find_test_files_ / walk_with_symlinks /         *)
@@ -59,7 +60,14 @@ Dedup(s, k, seen) == IF k > Len(s) THEN <<>>
                      ELSE <<s[k]>> \o Dedup(s, k + 1, seen \cup {s[k]})
 
 (* find_test_files: every search root walked in order, de-duplicated by path *)
+(* (the path alone: a file reached through a plain search path and through a *)
+(* --package-path entry is still one file)                                   *)
 Found(T) == Dedup(FlattenSeq([i \in 1..Len(T.walk) |-> Walk(T, T.walk[i], i)]), 1, {})
+(* the walk that yielded the file first decides its package ("" for --path /  *)
+(* --test-path entries, the given name for --package-path entries)            *)
+FoundVia(T, f) == LET S == {i \in 1..Len(T.walk) : \E k \in 1..Len(Walk(T, T.walk[i], i)) : Walk(T, T.walk[i], i)[k] = f}
+                  IN CHOOSE i \in S : \A j \in S : i <= j
+PkgOf(T, f) == T.walkPkg[FoundVia(T, f)]
 
 (* find_suites: module name by the longest search-root prefix (an            *)
 (* environment fact gives, per file and root, whether --module accepts the   *)
@@ -69,7 +77,7 @@ Depth(T, x) == IF x = "" THEN 0 ELSE 1 + Depth(T, E(T, x).parent)
 RECURSIVE Under(_, _, _)
 Under(T, x, r) == IF x = r THEN TRUE ELSE IF x = "" THEN FALSE ELSE Under(T, E(T, x).parent, r)
 NamingRoot(T, f) ==
-  LET cands == {i \in 1..Len(T.roots) : Under(T, E(T, f).parent, T.roots[i])}
+  LET cands == {i \in 1..Len(T.roots) : Under(T, E(T, f).parent, T.roots[i]) /\ T.rootPkg[i] = PkgOf(T, f)}
   IN CHOOSE i \in cands : \A j \in cands : Depth(T, T.roots[j]) <= Depth(T, T.roots[i])
 (* T.mpats = the --module list (signs), T.mmatch[f][r] = which patterns are    *)
 (* found in f's dotted name relative to root r                                *)
@@ -80,7 +88,8 @@ AcceptedAs(T, f, r) == Len(T.mpats) = 0 \/ Accept(T.mpats, T.mmatch[f][r])
 (* not say which name counts, so the zone in between is a don't-care)        *)
 Accepted(T, f) == AcceptedAs(T, f, T.roots[NamingRoot(T, f)])
 AcceptedAny(T, f) == \E i \in 1..Len(T.roots) :
-                        Under(T, E(T, f).parent, T.roots[i]) /\ AcceptedAs(T, f, T.roots[i])
+                        /\ Under(T, E(T, f).parent, T.roots[i]) /\ T.rootPkg[i] = PkgOf(T, f)
+                        /\ AcceptedAs(T, f, T.roots[i])
 (* I-spec: find_suites tries the prefixes longest first and imports the file *)
 (* under the first name the --module filter accepts                          *)
 Imported(T) == SelectSeq(Found(T), LAMBDA f : AcceptedAny(T, f))
